@@ -177,7 +177,9 @@ func (f *Fosite) DefaultClientAuthenticationStrategy(ctx context.Context, r *htt
 		if err != nil {
 			return nil, errorsx.WithStack(err)
 		}
-		if err := f.Store.SetClientAssertionJWT(ctx, jti, time.Unix(expiry, 0)); err != nil {
+		// The expiry is compared in whole seconds, so the assertion is still accepted during the second
+		// that starts at "exp"; the jti has to be remembered until that second has passed.
+		if err := f.Store.SetClientAssertionJWT(ctx, jti, time.Unix(expiry, 0).Add(time.Second)); err != nil {
 			return nil, err
 		}
 
